@@ -275,12 +275,15 @@ def check(ctx):
                f"{m.relpath}:{getattr(node, 'lineno', 1)}", f"fields {fields}")
     # unit level: ModelResultsHandler uses .lower / .upper
     uf = ctx.fn(MR, "ModelResultsHandler.add_unit_intervals")
+    from ..colwrites import column_writes
+    ufs = ctx.builder().summarize(uf)
+    ALPHA_ = ("elem", ("attr", SELF_, "prediction_interval_alphas"), 0)
     src = {}
-    for n in util.own_nodes(uf, ast.Assign):
-        t = n.targets[0]
-        if isinstance(t, ast.Subscript) and isinstance(t.value, ast.Attribute) and t.value.attr == "nonreporting_units" and isinstance(t.slice, ast.Name):
-            src[t.slice.id] = ast.unparse(n.value)
-    oku = any(k.startswith("lower") and v.endswith(".lower") for k, v in src.items()) and any(k.startswith("upper") and v.endswith(".upper") for k, v in src.items())
+    for k_, v_ in column_writes(ufs.attrs.get("nonreporting_units")):
+        for side in ("lower", "upper"):
+            if k_ == ("fstr", (("const", side + "_"), ALPHA_, ("const", "_"), ("param", "estimand"))):
+                src.setdefault(side, set()).add(v_ == ("attr", ("sub", ("param", uf.params[-1]), ALPHA_), side) or ir.show(v_, maxdepth=4))
+    oku = src.get("lower") == {True} and src.get("upper") == {True}
     ctx.ob("C02.R5.unit", f"{uf.qualname}|unit lower/upper from .lower/.upper", oku, uf.where(), f"nonreporting unit bounds: {src}")
 
 
